@@ -102,6 +102,10 @@ impl BDDSet {
 
     pub fn contains<T: BDDCategorizable>(&self, e: T) -> bool {
         let singleton = Self::from_element(e, self.bits, &self.env);
-        self.intersect(&singleton) == &singleton
+        let _self = self.bdd.borrow().clone();
+        let _singleton = singleton.bdd.borrow().clone();
+
+        // a query must not modify the set: compare the intersection without storing it
+        self.env.and(_self, Rc::clone(&_singleton)) == _singleton
     }
 }
